@@ -7,7 +7,7 @@ REQUIRED = ['Petl.C12.' + n for n in (
     'addcolumn_frame convert_frame header_functions_keep_data filldown_frame fillright_frame accessors_pad '
     'asindices_index_priority asindices_names_left_to_right pyInsert_spec cat_aligns_by_name').split()]
 
-CELLS = [None, 1, 2, 2.5, 'a', 'b', '', True, (1, 'a'), b'x']
+CELLS = [None, 1, 2, 2.5, 'a', 'b', '', True, (1, 'a'), b'x', 'NA', -999, 0]
 
 
 def fv_pair(rng, w):
@@ -58,7 +58,7 @@ def run(ctx):
         tt = proto.enc_table(T)
         nt = len(T) > 2
         base = {'table': repr(T)}
-        m = rng.choice([None, None, 'NA', 0])
+        m = gen.fresh(rng.choice([None, None, 'NA', 0, -999]))
         me = proto.enc(m)
         # cut / cutout
         sp = spec_sel(rng, hdr)
